@@ -287,6 +287,9 @@ fn tree_hand() -> Vec<Decl> {
         d("EXTRAordinarilyLONG:FOO", &[], R::Unit, true),
         d("EXTRAordinarilyLONG:BAZ?", &[], R::Hid, true),
         d("SYSTem:LONGmnemonic17:BAR", &[], R::Unit, false),
+        // a sibling that shares its first twelve characters with EXTRAordinarilyLONG
+        d("EXTRAORDINARYother:BAR", &[], R::Unit, true),
+        d("EXTRAORDINARYother:BAZ?", &[], R::Hid, true),
         // two optional subsystems with a same-named child whose own children differ
         d("[SENSe]:FREQuency:RANGe", &[F64], R::Unit, true),
         d("[SENSe]:FREQuency:RANGe?", &[], R::Hid, true),
